@@ -62,7 +62,8 @@ MaxI(a, b) == IF a > b THEN a ELSE b
 MinI(a, b) == IF a < b THEN a ELSE b
 \* uplink data-rates for which the RX1 data-rate is vouched for
 RX1Known(r) == CASE r \in {"EU868", "CN779", "EU433", "RU864", "ISM2400"} \/ IsAS923(r) -> 0..7
-                 [] r \in {"CN470", "KR920", "IN865"} -> 0..5
+                 [] r \in {"CN470", "KR920"} -> 0..5
+                 [] r = "IN865" -> (0..5) \cup {7}
                  [] r = "US915" -> 0..4
                  [] r = "AU915" -> 0..6
 EffOffset(o) == IF o = 6 THEN -1 ELSE IF o = 7 THEN -2 ELSE o
@@ -74,7 +75,8 @@ RX1DR(r, dwell, dr, off) ==
   CASE r = "US915" -> USRow(dr)[off + 1]
     [] r = "AU915" -> AURow(dr)[off + 1]
     [] IsAS923(r) -> MinI(5, MaxI(IF dwell THEN 2 ELSE 0, dr - EffOffset(off)))
-    [] r = "IN865" -> MinI(5, MaxI(0, dr - EffOffset(off)))
+    [] r = "IN865" -> IF dr = 7 THEN <<7, 5, 5, 4, 3, 2, 7, 7>>[off + 1]      \* the FSK row of RP002 (DR6 is RFU in this band)
+                      ELSE MinI(5, MaxI(0, dr - EffOffset(off)))
     [] OTHER -> MaxI(dr - off, 0)
 \* offsets over which the rule is monotone ("the region's positive offsets")
 PositiveOffsets(r) == IF IsAS923(r) \/ r = "IN865" THEN 0..5 ELSE 0..MaxRX1Offset(r)
